@@ -110,6 +110,12 @@ func c02RunInBubble(c c02Case) (out Outcome) {
 		mu.Unlock()
 	}
 	checkErr := func(op opSpec, err error) {
+		if op.Kind == "badget" {
+			if err == nil {
+				fail("bad-call-succeeded", "a Get without a row (%s) succeeded", op.Marker)
+			}
+			return
+		}
 		class, scripted := c.Exc[op.Marker]
 		if err != nil && strings.Contains(err.Error(), "region exception region=<") {
 			// a whole-region exception: it must be the one of the region that owns my row
@@ -180,7 +186,7 @@ func c02RunInBubble(c c02Case) (out Outcome) {
 				}
 				for i, op := range st.Batch {
 					checkErr(op, results[i].Error)
-					if results[i].Error == nil {
+					if results[i].Error == nil && op.Kind != "badget" {
 						if err := checkOpResult(op, results[i].Msg); err != nil {
 							fail("foreign-response", "caller %d batch call %d (%s): %v", ci, i, op.Marker, err)
 						}
@@ -244,6 +250,18 @@ func c02RunInBubble(c c02Case) (out Outcome) {
 	}
 	if len(c.Exc) > 0 {
 		out.Labels = append(out.Labels, "with_exceptions")
+	}
+	for _, steps := range c.Callers {
+		for _, st := range steps {
+			if st.Op != nil && st.Op.Kind == "badget" {
+				out.Labels = append(out.Labels, "unserialisable_call_among_others")
+			}
+			for _, op := range st.Batch {
+				if op.Kind == "badget" {
+					out.Labels = append(out.Labels, "unserialisable_call_among_others")
+				}
+			}
+		}
 	}
 	cl.Lock()
 	if cl.JunkSent > 0 {
@@ -309,6 +327,20 @@ func c02Gen(t *rapid.T) c02Case {
 		}
 		c.FlushMS = 20
 	}
+	if rapid.IntRange(0, 4).Draw(t, "withbad") == 0 {
+		// one or two callers issue a call that cannot be serialised, among everybody else's
+		nb := rapid.IntRange(1, 2).Draw(t, "nbad")
+		for k := 0; k < nb; k++ {
+			ci := rapid.IntRange(0, len(c.Callers)-1).Draw(t, "badcaller")
+			si := rapid.IntRange(0, len(c.Callers[ci])-1).Draw(t, "badstep")
+			st := &c.Callers[ci][si]
+			if st.Op != nil {
+				st.Op.Kind = "badget"
+			} else if len(st.Batch) > 0 {
+				st.Batch[rapid.IntRange(0, len(st.Batch)-1).Draw(t, "badidx")].Kind = "badget"
+			}
+		}
+	}
 	if c.CellBlocks && rapid.IntRange(0, 3).Draw(t, "withjunk") == 0 {
 		c.Junk = map[string]bool{}
 		nj := rapid.IntRange(1, 4).Draw(t, "njunk")
@@ -332,7 +364,7 @@ func TestC02_OwnResponse(t *testing.T) {
 			"SendBatch calls over 1..6 regions on 1..3 simulated servers; queue size in {1,2,5,100}, flush interval in "+
 			"{0,1,20ms}; per-response latencies from a tape (reordering on a connection), permuted results inside "+
 			"multi-responses, cellblock or protobuf result encoding, snappy on/off, scripted per-call application "+
-			"exceptions carrying the call's marker, multi-responses with bytes behind their cellblock (refused as a whole, the calls retried). The servers derive every response from (row, marker); the caller "+
+			"exceptions carrying the call's marker, calls that cannot be serialised (a Get without a row) issued among the others, multi-responses with bytes behind their cellblock (refused as a whole, the calls retried). The servers derive every response from (row, marker); the caller "+
 			"must get exactly that (or the error carrying its own marker). Non-trivial = responses left a connection in "+
 			"another order than the requests arrived, or a multi-response region result held >= 2 results; distinct by "+
 			"case hash")
